@@ -415,6 +415,9 @@ static void run_case(int k, const std::string & head, const std::string & body)
                else ++it;
             }
          }
+         // an oracle verdict goes out at once: a hang or crash in a later step (or in the server's Cleanup) must not lose it.
+         // (The canonical lines stay buffered so that a case that dies is still recognised as the one that died.)
+         if (!cx.orc.str().empty()) {fputs(cx.orc.str().c_str(), stdout); cx.orc.str(""); fflush(stdout);}
       }
       w.Shutdown();
    }
